@@ -209,7 +209,7 @@ fn parse_int_spec<const N: usize>() {
                 Some((idx, _)) => assert!(idx == p + 1, "consumes exactly through the terminator"),
                 None => assert!(p + 1 == n),
             }
-            kani::cover!(neg && digits == N - 2, "longest negative number in bound");
+            kani::cover!(neg && digits + 2 == N, "longest negative number in bound");
         }
         Err(_) => {
             assert!(!wellformed, "every canonical integer is accepted");
@@ -221,9 +221,20 @@ fn parse_int_spec<const N: usize>() {
 
 // @prop C16 C15
 // @fn BDecoder::parse_int, BDecoder::extract_int
-// @bound every byte string of 0..=4 bytes following the integer marker
-// @outside continuations longer than 4 (quick) / 5 (thorough) bytes; values beyond i64 (rejected by the implementation: str::parse)
+// @bound every byte string of 0..=3 bytes following the integer marker
+// @outside continuations longer than 3 (quick) / 5 (thorough) bytes; values beyond i64 (rejected by the implementation: str::parse)
 // @desc parse_int accepts exactly -?digits followed by e in canonical form (no leading zero, no -0, no empty digits, no sign alone), returns the value, the raw i..e form, and leaves the input positioned right after the terminator
+#[kani::proof]
+#[kani::unwind(6)]
+fn c16_parse_int_exact_3() {
+    parse_int_spec::<3>();
+}
+
+// @prop C16 C15
+// @tier thorough
+// @fn BDecoder::parse_int, BDecoder::extract_int
+// @bound every byte string of 0..=4 bytes following the integer marker
+// @desc as c16_parse_int_exact_3 up to 4 bytes
 #[kani::proof]
 #[kani::unwind(7)]
 fn c16_parse_int_exact_4() {
@@ -234,7 +245,7 @@ fn c16_parse_int_exact_4() {
 // @tier thorough
 // @fn BDecoder::parse_int, BDecoder::extract_int
 // @bound every byte string of 0..=5 bytes following the integer marker
-// @desc as c16_parse_int_exact_4 up to 5 bytes
+// @desc as c16_parse_int_exact_3 up to 5 bytes
 #[kani::proof]
 #[kani::unwind(8)]
 fn c16_parse_int_exact_5() {
